@@ -668,6 +668,99 @@ key (PKCS#8): {}
 		self.rep.exhaustive.push("RSA keys of 2048/3072/4096/8192 bits x every RSA algorithm of the build x three loading entry points: certificate, request and CRL generation under catch_unwind".into());
 	}
 
+	/// revocation lists whose two update instants lie on either side of a year where the written
+	/// form changes its digits or its kind (1949/1950, 1999/2000, 2049/2050, 9998/9999), and
+	/// entries whose revocation times are less than a second apart in different whole seconds
+	/// (also across those year boundaries): every field its own instant in its own form
+	pub fn crl_time_pairs(&mut self) {
+		let at = |y: i32, mo: u8, d: u8, h: u8, mi: u8, sec: u8, ns: u32| Dt { y, mo, d, h, mi, s: sec, ns, off: 0 };
+		let pairs = [
+			(at(1999, 12, 25, 0, 0, 0, 0), at(2000, 1, 1, 0, 0, 0, 0)),
+			(at(1999, 12, 31, 23, 59, 59, 0), at(2000, 1, 1, 0, 0, 0, 0)),
+			(at(1949, 12, 31, 23, 59, 59, 500_000_000), at(1950, 1, 1, 0, 0, 0, 0)),
+			(at(1950, 6, 1, 0, 0, 0, 0), at(2049, 6, 1, 0, 0, 0, 0)),
+			(at(2049, 12, 31, 23, 59, 59, 0), at(2050, 1, 1, 0, 0, 0, 0)),
+			(at(1999, 1, 1, 0, 0, 0, 0), at(2001, 1, 1, 0, 0, 0, 0)),
+			(at(2099, 12, 31, 0, 0, 0, 0), at(2100, 1, 1, 0, 0, 0, 0)),
+			(at(999, 12, 31, 0, 0, 0, 0), at(1000, 1, 1, 0, 0, 0, 0)),
+		];
+		for (this, next) in pairs {
+			let mut c = self.base_crl();
+			c.this = this;
+			c.next = next;
+			let out = self.crl(&c, 0);
+			// (nextUpdate is the later instant in every pair: there is a list to be had)
+			if out.model.starts_with("(ok") && !out.real.starts_with("(ok") {
+				self.rep.violate(&format!("{}:crl-refused-for-ordered-instants", self.prop), "a revocation list whose nextUpdate is later than its thisUpdate is refused: the two fields cannot be given these instants", out.replay());
+			}
+		}
+		let close = [
+			(at(2024, 3, 1, 10, 0, 0, 900_000_000), at(2024, 3, 1, 10, 0, 1, 100_000_000)),
+			(at(2024, 3, 1, 10, 0, 0, 999_999_999), at(2024, 3, 1, 10, 0, 1, 0)),
+			(at(2049, 12, 31, 23, 59, 59, 600_000_000), at(2050, 1, 1, 0, 0, 0, 200_000_000)),
+			(at(1949, 12, 31, 23, 59, 59, 600_000_000), at(1950, 1, 1, 0, 0, 0, 200_000_000)),
+			(at(2024, 3, 1, 10, 0, 1, 100_000_000), at(2024, 3, 1, 10, 0, 0, 900_000_000)),
+			(at(2024, 3, 1, 10, 0, 0, 100_000_000), at(2024, 3, 1, 10, 0, 0, 900_000_000)),
+		];
+		for (a, b) in close {
+			let mut c = self.base_crl();
+			c.this = at(2051, 1, 1, 0, 0, 0, 0);
+			c.next = at(2052, 1, 1, 0, 0, 0, 0);
+			c.revoked = vec![
+				PRevoked { serial: vec![1], time: a, reason: None, invalidity: None },
+				PRevoked { serial: vec![2], time: b, reason: None, invalidity: Some(b) },
+				PRevoked { serial: vec![3], time: a, reason: None, invalidity: Some(a) },
+			];
+			self.crl(&c, 0);
+		}
+		self.rep.exhaustive.push("revocation lists with thisUpdate / nextUpdate on either side of 1950, 2000, 2050, 2100 and year 1000; entries less than a second apart in different whole seconds, also across 1950 and 2050".into());
+	}
+
+	/// revocation lists signed by issuer keys as they come out of every key-loading entry point,
+	/// under every algorithm of the build: the list verifies (OpenSSL) under the issuer's key and
+	/// names the algorithm it was signed with
+	#[cfg(not(feature = "nocrypto"))]
+	pub fn crl_loaded_issuer_keys(&mut self) {
+		for alg in keys::build_algs() {
+			let name = alg_name(alg).to_string();
+			let pkcs8 = if name.starts_with("rsa") { self.ctx.rsa_fixture.clone() } else { self.ctx.key(&name).serialize_der() };
+			let truth = openssl::pkey::PKey::private_key_from_pkcs8(&pkcs8).ok();
+			for (loader, res) in crate::props::c01::loaded_keys(alg, &pkcs8) {
+				let Ok(k) = res else { continue };
+				let mut p = PCert::empty();
+				p.serial = Some(vec![0x71]);
+				p.dn = Dn(vec![(DnT::Cn, DnV::Utf8(format!("crl issuer {} via {}", name, loader)))]);
+				p.ca = Ca::Ca(None);
+				let Ok(Ok(cert)) = std::panic::catch_unwind(std::panic::AssertUnwindSafe(|| p.real().unwrap().self_signed(&k))) else { continue };
+				let mut c = self.base_crl();
+				c.revoked = vec![PRevoked { serial: vec![7], time: Dt::ymd(2024, 2, 2), reason: None, invalidity: None }];
+				let Some(rc) = c.real() else { continue };
+				let Ok(Ok(crl)) = std::panic::catch_unwind(std::panic::AssertUnwindSafe(|| rc.signed_by(&cert, &k))) else { continue };
+				self.rep.case(&format!("crl signed by a {} key loaded through {}", name, loader), true);
+				self.rep.count("crls_signed_by_loaded_keys");
+				// (OpenSSL does not read the Ed25519 documents with an attached public key that the back
+				// ends write: the issuer certificate's key stands in for the derived one there)
+				let from_cert = openssl::x509::X509::from_der(cert.der()).ok().and_then(|x| x.public_key().ok());
+				let ok = match (&truth, &from_cert) {
+					(Some(pk), _) => openssl::x509::X509Crl::from_der(crl.der()).ok().map(|x| x.verify(pk).unwrap_or(false)),
+					(None, Some(pk)) => openssl::x509::X509Crl::from_der(crl.der()).ok().map(|x| x.verify(pk).unwrap_or(false)),
+					_ => Some(true),
+				};
+				if ok != Some(true) {
+					self.rep.violate(&format!("C08:crl-signature:{}", name), "a revocation list does not verify under its issuer's key (OpenSSL, the key derived from the private key): a relying party cannot use it", format!("issuer key: {} loaded through {} (reports {})\ncrl: {}", name, loader, alg_name(k.algorithm()), hex(crl.der())));
+				}
+				let line = format!("spec-crl {} {} {}", c.sexp(), issuer_sexp(&p, &k), hex(crl.der()));
+				let resp = self.drv.ask(&line);
+				for clause in Self::parse_fail(&resp) {
+					if self.mine(&clause) {
+						self.rep.violate(&format!("{}:loaded-issuer-key", clause), "a revocation list signed by a loaded issuer key violates a specification clause", format!("issuer key {} via {}\nspec-request: {}\nspec-answer: {}", name, loader, line, resp));
+					}
+				}
+			}
+		}
+		self.rep.exhaustive.push("revocation lists signed by issuer keys loaded through each of the nine entry points x every algorithm of the build: OpenSSL verification and the clause list".into());
+	}
+
 	/// BMPString code units inside and at both ends of the surrogate block, UniversalString values
 	/// beyond U+10FFFF and inside the block, through the byte-level constructors: whatever is
 	/// accepted goes into a certificate and through the canonicity / schema clauses
@@ -1931,12 +2024,16 @@ pub fn run(ctx: &mut Ctx, prop: &str) -> Report {
 			s.serial_sweep();
 			s.ctor_serial();
 			s.uri_shape_sweep();
+			s.crl_time_pairs();
+			#[cfg(not(feature = "nocrypto"))]
+			s.crl_loaded_issuer_keys();
 			s.time_edge_sweep();
 			s.random_crls(n(800, 30000));
 		},
 		"C09" => {
 			s.time_sweep();
 			s.time_edge_sweep();
+			s.crl_time_pairs();
 			s.ctor_ymd();
 			#[cfg(not(feature = "nocrypto"))]
 			s.request_issuance_sweep();
